@@ -437,6 +437,13 @@ def check_rand(case):
     g = r['result']
     if r['error'] is not None or isinstance(g, bool) or not isinstance(g, int) or not (lo <= g <= hi):
         raise Violation('%s -> %r' % (f, r), r['error'] or enc(g), [lo, hi])
+    # the same whole-number bounds arriving as floats (a decimal literal, a quotient, a host float) or as text
+    forms = ['RANDBETWEEN(%s,%s)' % (lit(float(lo)), lit(hi)), 'RANDBETWEEN(%s,(%s*2)/2)' % (lit(lo), lit(hi)), 'RANDBETWEEN("%d","%d")' % (lo, hi), 'RANDBETWEEN(v_lo,v_hi)', 'RANDBETWEEN(%s,v_hi)' % lit(lo)]
+    f = forms[(lo + hi) % len(forms)]
+    r = Env(vars={'v_lo': float(lo), 'v_hi': float(hi)}).parse(f)
+    g = r['result']
+    if r['error'] is not None or isinstance(g, bool) or not isinstance(g, (int, float)) or g != int(g) or not (lo <= g <= hi):
+        raise Violation('%s (v_lo = %r, v_hi = %r) -> %r' % (f, float(lo), float(hi), r), r['error'] or enc(g), [lo, hi])
 
 
 unary_case = st.fixed_dictionaries({'f': st.sampled_from(UNARY), 'x': reals(), 'how': st.sampled_from(['var', 'var', 'lit', 'text'])})
@@ -484,7 +491,7 @@ LAWS = [
         required=('rate0', 'tiny-rate', 'rate', 'type:1', 'type:0', 'type:None'),
         rule='(rate > -1 incl. 0 and +-1e-12..1e-3, periods 0..600 integer/real, payment/future up to 1e9 of any sign, type 0/1/omitted): residual of the annuity equation <= 1e-9 of the sum of term magnitudes'),
     Law('rand', check_rand, strategy=st.tuples(st.integers(-10 ** 6, 10 ** 6), st.integers(-10 ** 6, 10 ** 6)).map(list), quick=1000, thorough=100000,
-        rule='RAND() in [0,1), RANDBETWEEN(a,b) an integer in [a,b] (range predicate only)'),
+        rule='RAND() in [0,1), also when the random source draws its end points; RANDBETWEEN(a,b) an integer in [a,b] (range predicate only), the whole-number bounds given as integers and as floats, quotients, text or host floats'),
 ]
 
 LEVEL_TEXT = 'Hypothesis exploration: every elementary function against a 50-digit mpmath reference on boundary grids and nine decades of magnitude, domain errors, 29 identities through single formulas, ATAN2 geometry, PV residual, RAND ranges. Floating-point tolerance stated; does not cover every double.'
